@@ -60,6 +60,10 @@ def apply_edits(las, edits):
             las.curves[0].data = np.array([fl(x) for x in e[1]], dtype=float)
         elif op == "index_scale":
             las.curves[0].data *= fl(e[1])
+        elif op == "index_shift":               # a bulk shift, small against the depths themselves
+            las.curves[0].data += fl(e[1])
+        elif op == "index_nudge":               # one sample corrected by a small amount
+            las.curves[0].data[e[1]] += fl(e[2])
         elif op == "curve_set":
             las.curves[e[1]].data[e[2]] = fl(e[3])
         elif op == "well_value":
@@ -727,8 +731,12 @@ def gen_edits(rng, ncur, nrows, p):
                 kind, xs = gen_index(rng)
                 xs = (xs * 8)[:nrows] if xs else [0.0] * nrows
                 out[-1] = ["index_replace", [hx(x) for x in xs]]
+        elif r < 0.40 and ncur and nrows:
+            out.append(["index_scale", hx(rng.choice([0.3048, 2.0, 1.0, -1.0, 1.000001, 0.99999]))])
         elif r < 0.42 and ncur and nrows:
-            out.append(["index_scale", hx(rng.choice([0.3048, 2.0, 1.0, -1.0]))])
+            # edits far below any relative tolerance but well above the five decimals of the header
+            d = rng.choice([0.0001, 0.001, 0.01, 0.03, -0.002, 0.00002])
+            out.append(["index_shift", hx(d)] if rng.random() < 0.5 else ["index_nudge", rng.choice([0, nrows - 1, rng.randrange(nrows)]), hx(d)])
         elif r < 0.52 and ncur > 1 and nrows:
             out.append(["curve_set", rng.randrange(1, ncur), rng.randrange(nrows), hx(rng.choice([1.5, float("nan"), -7.25]))])
         elif r < 0.62:
@@ -886,7 +894,7 @@ def run(run):
         cfgs = gen_cfgs(rng)
         if len(cfgs) >= 2 and rng.random() < 0.5:
             # in-place edits of the arrays between two writes (after the first write has looked at every array)
-            mid = [e for e in gen_edits(rng, sh[0], sh[1], 0.7) if e[0] in ("index_set", "index_scale", "curve_set")]
+            mid = [e for e in gen_edits(rng, sh[0], sh[1], 0.7) if e[0] in ("index_set", "index_scale", "index_shift", "index_nudge", "curve_set")]
             if mid:
                 recipe["mid_edits"] = {str(rng.randrange(1, len(cfgs))): mid}
         history(run, recipe, cfgs, ["own-output", "edited" if recipe["edits"] else "as-read"] + (["mid-edits"] if recipe.get("mid_edits") else []), pend)
